@@ -26,6 +26,8 @@ def load_world(repo_root=None):
         mod = importlib.util.module_from_spec(spec)
         spec.loader.exec_module(mod)
         mod.register(w)
+    for fin in w.finalizers:
+        fin(w)
     return w
 
 
